@@ -50,6 +50,7 @@ var c17OpNames = []string{
 	"private Copy(S) then mutate the copy", "private Map encode+query", "S.ValuesForPath(subkeys)", "SS.StringIndent", "AnyXml(S)", "Maps{S,S}.XmlString",
 	"S.XmlIndentWriter", "S.JsonIndent(safe)",
 	"private BeautifyXml", "private JSON reader stream", "private HandleXmlReader stream", "SS.XmlIndentWriter", "S.ValuesForPath(indexed)", "private sequence reader stream",
+	"private decode of a deeply nested document",
 }
 
 func res(v interface{}, err error) string {
@@ -263,6 +264,22 @@ func (o *c17op) exec(e *c17env) (out string) {
 		}
 		v, err := S.ValuesForPath(p)
 		return res(v, err)
+	case 42:
+		// thousands of levels deep: per-call state that is really per-package (depth counters,
+		// recursion guards) adds up across goroutines
+		d := 1200 + 400*o.N
+		doc := strings.Repeat("<a>", d) + "x" + strings.Repeat("</a>", d)
+		m, err := mxj.NewMapXml([]byte(doc))
+		depth := 0
+		for v := interface{}(map[string]interface{}(m)); ; depth++ {
+			mm, ok := v.(map[string]interface{})
+			if !ok {
+				break
+			}
+			v = mm["a"]
+		}
+		ms, err2 := mxj.NewMapXmlSeq([]byte(doc))
+		return fmt.Sprintf("depth=%d %v seq=%v %v", depth, err, ms != nil, err2)
 	case 41:
 		r := NewSimReader(e.c, fmt.Sprintf("sr%x", uint64(HashStr(o.Doc))&0xffff), []byte(o.Doc), &ReadSched{ErrAt: -1, CutAt: -1, Chunk: o.N % 3, ChunkSeed: uint64(o.N), EOFWithData: o.N%2 == 1})
 		var sb strings.Builder
@@ -537,18 +554,34 @@ func runC17(c *Ctx) *Violation {
 	ntasks := 2 + t.Small(5)
 	progs := make([][]*c17op, ntasks)
 	pols := make([]*iterPolicy, ntasks)
+	// one case in three has a focus: half of all operations are of one kind, so that several
+	// tasks are inside the same function at the same time
+	focus := -1
+	if t.Draw(3) == 0 {
+		focus = t.Draw(len(c17OpNames) - 1) // (never the expensive deep-document kind, the last one)
+	}
+	castAll := t.Draw(3) == 0 // every private XML decode of this case casts
 	for i := range progs {
 		nops := 1 + t.Small(4)
 		for j := 0; j < nops; j++ {
 			o := &c17op{Kind: t.Draw(len(c17OpNames))}
-			if t.Draw(4) > 0 && o.Kind >= 24 && o.Kind <= 29 {
+			if t.Draw(3) > 0 && (o.Kind == 28 || o.Kind == 29) {
 				o.Kind = t.Draw(24) // bias towards the shared value
+			}
+			if o.Kind == 42 && t.Draw(10) > 0 {
+				o.Kind = 24 // deep documents are expensive: keep them rare
+			}
+			if focus >= 0 && t.Draw(2) == 0 {
+				o.Kind = focus
 			}
 			o.Name = c17OpNames[o.Kind]
 			o.Shared = o.Kind < 24 || (o.Kind >= 30 && o.Kind <= 35) || o.Kind == 39 || o.Kind == 40
 			o.A = paths[t.Draw(len(paths))]
 			o.B = keys[t.Draw(len(keys))]
 			o.N = t.Draw(6)
+			if castAll && o.Kind == 24 {
+				o.N = 1
+			}
 			if t.Draw(3) == 0 {
 				o.Sub = []string{specs[t.Draw(len(specs))]}
 				if t.Draw(3) == 0 {
@@ -755,7 +788,7 @@ func init() {
 			loadFacts()
 			return map[string]string{"s3_package_state_rule": s3Note}
 		},
-		Rule: "each case = 2..6 tasks (real goroutines) x 1..4 operations each, drawn from 42 operation kinds: read-only encoders/queries on ONE shared Map and ONE shared MapSeq, decodes of private documents (incl. a private simulated reader stream), and mutation of a private Copy of the shared Map; every operation is first executed alone (sequential reference, receiver digest checked after each: S5, Copy aliasing walk: S4) and then all tasks run under a cooperative scheduler that hands control over only at the ~430 generated yield points, following one of four seeded policies (preemption-bounded, PCT priorities, random switch, round-robin quantum); at EVERY yield the shared receivers' digest (S2) and the digest of every package-level variable (S3) are compared with their initial value, and afterwards every operation's result must equal its sequential result (S1). Each task has its own seeded map-iteration policy. Non-trivial = at some yield two tasks were simultaneously inside operations on the shared value; distinct = distinct (shared value, interleaving hash).",
+		Rule: "each case = 2..6 tasks (real goroutines) x 1..4 operations each, drawn from 43 operation kinds: read-only encoders/queries on ONE shared Map and ONE shared MapSeq, decodes of private documents (incl. a private simulated reader stream), and mutation of a private Copy of the shared Map; every operation is first executed alone (sequential reference, receiver digest checked after each: S5, Copy aliasing walk: S4) and then all tasks run under a cooperative scheduler that hands control over only at the ~430 generated yield points, following one of four seeded policies (preemption-bounded, PCT priorities, random switch, round-robin quantum); at EVERY yield the shared receivers' digest (S2) and the digest of every package-level variable (S3) are compared with their initial value, and afterwards every operation's result must equal its sequential result (S1). Each task has its own seeded map-iteration policy. Non-trivial = at some yield two tasks were simultaneously inside operations on the shared value; distinct = distinct (shared value, interleaving hash).",
 		Assumptions: []string{
 			"scheduling points exist only in mxj's root package; the standard library runs atomically between them",
 			"while the package contains no synchronisation primitive, any write to package-level state from a decode/encode/query path is a data race (S3); when the instrumenter finds sync/go/select, S3 is switched off and the evidence says so",
